@@ -12,6 +12,7 @@ import (
 //   n0, n1, n2        the three member names (arbitrary bytes; the valid ones are debian-binary, control.tar, data.tar)
 //   ctlRaw, rawCtl    rawCtl: the control member holds ctlRaw instead of a tarball
 //   order             0 b,c,d  1 c,b,d  2 b,d,c  3 d,c,b  4 b,c,c,d  5 b,c,d,d  6 b,b,c,d  7 b only  8 b,c only
+//                     9 b,c,d and a fourth member named ctlRaw
 //   trunc             >= 0: the archive is cut after that many bytes
 func VerifC15Deb(binary, n0, n1, n2, ctlRaw string, rawCtl bool, order, trunc int) int {
 	ctl := verifTar([]string{"./control"}, []string{"Package: p\nVersion: 1\nArchitecture: all\n"})
@@ -37,6 +38,9 @@ func VerifC15Deb(binary, n0, n1, n2, ctlRaw string, rawCtl bool, order, trunc in
 		body = b + c + d + d
 	case 6:
 		body = b + b + c + d
+	case 9:
+		// a sibling member (named by ctlRaw) that is no tarball, beside the regular three
+		body = b + c + d + verifArMember(ctlRaw, "sig")
 	case 7:
 		body = b
 	default:
@@ -71,9 +75,17 @@ func VerifC15Deb(binary, n0, n1, n2, ctlRaw string, rawCtl bool, order, trunc in
 	if c1 != 0 {
 		return c1
 	}
-	c2, t2 := run()
-	if c2 != 0 || t1 != t2 {
-		return 7
+	// again (natively the iteration order of the member map varies from load to load: trunc < -1 asks for -trunc
+	// further loads when a counterexample is replayed)
+	again := 1
+	if trunc < -1 {
+		again = -trunc
+	}
+	for i := 0; i < again; i++ {
+		c2, t2 := run()
+		if c2 != 0 || t1 != t2 {
+			return 7
+		}
 	}
 	return 0
 }
